@@ -307,38 +307,51 @@ def codegen_only(scratch, obs, log_dir=None, tag='codegen'):
     return p.returncode, p.stdout
 
 
-def drop_cut_unwindset(scratch, obs, depth):
-    """Identifiers (mangled, with crate hashes: looked up on every run) of the Value drop glue. Recursion of
-    drop_in_place/drop_glue::<Value> is limited to `depth`, the container-drop loops to `depth` iterations;
-    unwinding assertions stay ON, so a harness that would drop deeper FAILS its unwinding assertion (-> undecided)
-    instead of silently ignoring the drop."""
+def _ids_of(out, depth):
+    ids = {}
+    p = subprocess.run(['goto-instrument', '--list-goto-functions', out], stdout=subprocess.PIPE,
+                       stderr=subprocess.DEVNULL, text=True, timeout=600)
+    for line in p.stdout.splitlines():
+        m = re.match(r'^(.*) /\* (\S+) \*/$', line)
+        if not m:
+            continue
+        pretty, mangled = m.group(1).strip(), m.group(2)
+        if pretty in DROP_RECURSION:
+            ids[mangled] = '%s:%d' % (mangled, depth)
+        else:
+            for rx in DROP_LOOPS_RE:
+                if re.match(rx, pretty):
+                    ids[mangled + '.0'] = '%s.0:%d' % (mangled, depth + 1)
+    return ids
+
+
+def drop_cut_unwindsets(scratch, obs, depth):
+    """Identifiers (mangled, with crate hashes: looked up on every run, in each harness's own goto binary) of the
+    Value / Parsed drop glue. Recursion of drop_in_place/drop_glue is limited to `depth`, the container-drop loops
+    to `depth`+1 iterations; unwinding assertions stay ON, so a harness that would drop deeper FAILS its unwinding
+    assertion (-> undecided) instead of silently ignoring the drop. CBMC rejects identifiers that are not in the
+    binary, so harnesses are grouped by the identifier set their own binary contains.
+    Returns {unwindset string (may be ''): [obligations]} or None when a binary is missing."""
     outs = []
     for dp, dn, fn in os.walk(os.path.join(scratch, 'target', 'kani')):
         for f in fn:
             if f.endswith('.out') and not f.endswith('.symtab.out'):
                 outs.append(os.path.join(dp, f))
-    ids = {}
-    mine = [o_ for o_ in outs if any(o.harness in o_ for o in obs)]
-    # the identifiers are crate-global (same compilation): any harness binary of this build that contains them will do
-    for out in (mine if mine else outs[:6]):
-        p = subprocess.run(['goto-instrument', '--list-goto-functions', out], stdout=subprocess.PIPE,
-                           stderr=subprocess.DEVNULL, text=True, timeout=600)
-        for line in p.stdout.splitlines():
-            m = re.match(r'^(.*) /\* (\S+) \*/$', line)
-            if not m:
-                continue
-            pretty, mangled = m.group(1).strip(), m.group(2)
-            if pretty in DROP_RECURSION:
-                ids[mangled] = '%s:%d' % (mangled, depth)
-            else:
-                for rx in DROP_LOOPS_RE:
-                    if re.match(rx, pretty):
-                        ids[mangled + '.0'] = '%s.0:%d' % (mangled, depth + 1)
-    have_rec = sum(1 for k in ids if not k.endswith('.0'))
-    if have_rec < 1:
-        # the harness binaries were found but contain no Value drop glue at all: nothing to limit
-        return '' if mine else None
-    return ','.join(sorted(ids.values()))
+    groups = {}
+    for o in obs:
+        mine = [x for x in outs if x.endswith(o.harness + '.out')]
+        if not mine:
+            return None
+        ids = _ids_of(mine[0], depth)
+        groups.setdefault(','.join(sorted(ids.values())), []).append(o)
+    return groups
+
+
+def drop_cut_unwindset(scratch, obs, depth):
+    g = drop_cut_unwindsets(scratch, obs, depth)
+    if not g:
+        return None
+    return sorted(g.keys(), key=len)[-1]
 
 
 REPLAY_MAIN = '''
